@@ -88,15 +88,16 @@ def parseCfg (t : List FieldSpec) (s : String) : Option Config :=
       | none => none
     | _ => none) (zero t)
 
-/-! heap view of the inputs: every non-nil map / non-empty slice gets its own object -/
-def toRef (t : List FieldSpec) (h : Heap) (c : Config) : Heap × RConfig :=
+/-! heap view of the inputs: every non-nil map / non-empty slice gets its own object (a slice's backing
+array has `spare` unused cells beyond its length) -/
+def toRef (t : List FieldSpec) (h : Heap) (c : Config) (spare : Nat := 0) : Heap × RConfig :=
   t.foldl (fun (acc : Heap × RConfig) fs =>
     let (h, rc) := acc
     match get c fs.name with
     | .tags none => (h, rc ++ [(fs.name, .ref none)])
     | .tags (some m) => (h ++ [.tags m], rc ++ [(fs.name, .ref (some h.length))])
-    | .list [] => (h, rc ++ [(fs.name, .ref none)])
-    | .list l => (h ++ [.strs l], rc ++ [(fs.name, .ref (some h.length))])
+    | .list [] => (h, rc ++ [(fs.name, .slice none)])
+    | .list l => (h ++ [.strs (l ++ List.replicate spare "")], rc ++ [(fs.name, .slice (some (h.length, l.length)))])
     | v => (h, rc ++ [(fs.name, .scalar v)])) (h, [])
 
 def sameCfg (t : List FieldSpec) (x y : Config) : Bool :=
@@ -117,7 +118,7 @@ def modelMerge (a b : Config) : String :=
 /-- model of op `reuse`, entirely on the heap view: the same base is merged with `b`, then with
 `c`; the first result is read again AFTER the second call, and every input is re-read. -/
 def modelReuse (base b c : Config) : String :=
-  let (h0, rbase) := toRef table [] base
+  let (h0, rbase) := toRef table [] base 3        -- the executor rebuilds the base's lists with cap = len + 3
   let (h1, rb) := toRef table h0 b
   let (h2, rc) := toRef table h1 c
   let (h3, r1) := mergeH table h2 rbase rb
